@@ -3,7 +3,8 @@ C12 — the descriptor round trip as ONE statement, for every declaration order.
 
 For every type system built through the API (any history of `create_type` / `create_feature` that declares features on
 user types other than DocumentAnnotation) in which no type re-declares a feature it inherits (`NoShadow`, see
-`Spec/TsXmlRoundTrip.lean` and finding X12): let `d` be the descriptor `to_xml` emits.  Then **every permutation** `d'` of
+`Spec/TsXmlRoundTrip.lean` and finding X12) and no user type name or feature name carries surrounding whitespace
+(`StrippedNames`, see below): let `d` be the descriptor `to_xml` emits.  Then **every permutation** `d'` of
 its declarations (subtypes before supertypes, features referring to later types)
 
 * loads (`load_typesystem` succeeds),
@@ -33,6 +34,23 @@ is FALSE of the model and of the implementation alike (evaluated in `Spec/TsXmlR
   declarations accumulate and the comparison with the built-in definition raises `ValueError` — hypothesis `hnd` added
   (featureless entries such as `uima.cas.String` may in fact be repeated; not covered).
 
+CHANGED STATEMENTS (all three): hypothesis `hsn : StrippedNames Gen.consts ts` added.  The reader
+(`TypeSystemDeserializer`, `_get_elem_as_str`) strips surrounding whitespace from EVERY text it reads — type name,
+supertype name, feature name, range, element type, descriptions — and the model now does so too (`normalize` =
+strip every text, then key the declarations by name).  Neither `create_type` / `create_feature` nor the writer strip.
+Without `hsn` the three statements are FALSE of the model and of the implementation alike (evaluated in
+`Spec/TsXmlRoundTripCheck.lean`: `counterPadType`, `counterPadFeat`, `hPadRef`; Python agrees):
+
+* history `[create_type(" x.A ")]`: `to_xml` writes `<name> x.A </name>`, the reload declares `x.A`; `SameXml` fails at
+  both names and the re-emitted descriptor names `x.A`, not `" x.A "`;
+* history `[create_type("x.B"), create_feature("x.B", " f ", "uima.cas.String")]`: the reload has the feature `f`
+  (and `" self"` comes back as the reserved feature `self_`).
+
+`StrippedNames` is the weakest hypothesis of this kind: it speaks about user type names and the written names of own
+features of user types only (each of them is needed, by the two counterexamples); supertype, range and element type
+names are resolved by the API and therefore names of registered types (`registered_stripped`).  The trimming of
+descriptions remains visible in the conclusion (`trimT`), as before.
+
 The conjunct `e.name ≠ DOCUMENT_ANNOTATION` was redundant (DocumentAnnotation is not a predefined name) and is replaced
 by the alternative `e = docEntry`, which lets the descriptor redeclare DocumentAnnotation.
 -/
@@ -44,12 +62,13 @@ open Cassis.TS
 
 theorem tsxml_roundtrip (ops : List TsOp) (h : UserOnlyNoDoc Gen.consts ops)
     (hns : NoShadow (ops.foldl (applyOp Gen.consts) Gen.builtinTS))
+    (hsn : StrippedNames Gen.consts (ops.foldl (applyOp Gen.consts) Gen.builtinTS))
     (d d' : Descriptor) (hd : toDescriptor Gen.consts (ops.foldl (applyOp Gen.consts) Gen.builtinTS) = .ok d)
     (hp : d'.Perm d) :
     ∃ ts', load Gen.consts d' = .ok ts' ∧
       SameXml (ops.foldl (applyOp Gen.consts) Gen.builtinTS) ts' ∧
       toDescriptor Gen.consts ts' = .ok (d.map trimT) :=
-  tsxml_roundtrip_aux ops h hns d d' hd hp
+  tsxml_roundtrip_aux ops h hns hsn d d' hd hp
 
 /-- a built-in type redeclared exactly as the library defines it -/
 def builtinEntry (n : String) : Option TDesc :=
@@ -57,6 +76,7 @@ def builtinEntry (n : String) : Option TDesc :=
 
 theorem tsxml_roundtrip_redeclared (ops : List TsOp) (h : UserOnlyNoDoc Gen.consts ops)
     (hns : NoShadow (ops.foldl (applyOp Gen.consts) Gen.builtinTS))
+    (hsn : StrippedNames Gen.consts (ops.foldl (applyOp Gen.consts) Gen.builtinTS))
     (d d' pre : Descriptor) (hd : toDescriptor Gen.consts (ops.foldl (applyOp Gen.consts) Gen.builtinTS) = .ok d)
     (hpre : ∀ e ∈ pre, (Gen.consts.predefined.contains e.name = true ∧ builtinEntry e.name = some e) ∨ e = docEntry)
     (hnt : ∀ e ∈ pre, e.name ≠ TOP) (hnd : pre.Nodup)
@@ -66,26 +86,27 @@ theorem tsxml_roundtrip_redeclared (ops : List TsOp) (h : UserOnlyNoDoc Gen.cons
       toDescriptor Gen.consts ts' = .ok (preOut ++ d.map trimT) ∧
       preOut.map (·.name) = sortStrs (pre.map (·.name)).eraseDups ∧
       ∀ e ∈ preOut, builtinEntry e.name = some e ∨ e = docEntry :=
-  tsxml_roundtrip_redeclared_aux ops h hns d d' pre hd hpre hnt hnd hp
+  tsxml_roundtrip_redeclared_aux ops h hns hsn d d' pre hd hpre hnt hnd hp
 
 /-- a descriptor that declares DocumentAnnotation itself: it is remembered and written first -/
 theorem tsxml_roundtrip_docann (ops : List TsOp) (h : UserOnlyNoDoc Gen.consts ops)
     (hns : NoShadow (ops.foldl (applyOp Gen.consts) Gen.builtinTS))
+    (hsn : StrippedNames Gen.consts (ops.foldl (applyOp Gen.consts) Gen.builtinTS))
     (d d' : Descriptor) (hd : toDescriptor Gen.consts (ops.foldl (applyOp Gen.consts) Gen.builtinTS) = .ok d)
     (hp : d'.Perm (docEntry :: d)) :
     ∃ ts', load Gen.consts d' = .ok ts' ∧
       SameXml (ops.foldl (applyOp Gen.consts) Gen.builtinTS) ts' ∧
       toDescriptor Gen.consts ts' = .ok (docEntry :: d.map trimT) :=
-  tsxml_roundtrip_docann_aux ops h hns d d' hd hp
+  tsxml_roundtrip_docann_aux ops h hns hsn d d' hd hp
 
 /-! Non-vacuity: the history `Demo.demoOps` (a chain whose emitted descriptor lists the subtype first, a padded and an
-empty description, a feature named `self` ranging over a type declared later, an array feature with element type)
-satisfies all hypotheses (`Proofs/TsXmlRoundTripDemo.lean`); `Demo.demoD'` is another order of its descriptor, and
+empty description, a feature named `self` ranging over a type declared later, an array feature with element type; no
+padded name: `Demo.demo_stripped`) satisfies all hypotheses (`Proofs/TsXmlRoundTripDemo.lean`); `Demo.demoD'` is another order of its descriptor, and
 `Demo.demoPre` redeclares DocumentAnnotation, FSArray, ArrayBase and Annotation. -/
 example : ∃ ts', load Gen.consts Demo.demoD' = .ok ts' ∧
     SameXml (Demo.demoOps.foldl (applyOp Gen.consts) Gen.builtinTS) ts' ∧
     toDescriptor Gen.consts ts' = .ok (Demo.demoD.map trimT) :=
-  tsxml_roundtrip Demo.demoOps Demo.demo_user Demo.demo_noShadow Demo.demoD Demo.demoD' Demo.demo_descriptor
+  tsxml_roundtrip Demo.demoOps Demo.demo_user Demo.demo_noShadow Demo.demo_stripped Demo.demoD Demo.demoD' Demo.demo_descriptor
     Demo.demo_perm
 
 example : ∃ ts' preOut, load Gen.consts (Demo.demoD' ++ Demo.demoPre) = .ok ts' ∧
@@ -93,9 +114,15 @@ example : ∃ ts' preOut, load Gen.consts (Demo.demoD' ++ Demo.demoPre) = .ok ts
     toDescriptor Gen.consts ts' = .ok (preOut ++ Demo.demoD.map trimT) ∧
     preOut.map (·.name) = sortStrs (Demo.demoPre.map (·.name)).eraseDups ∧
     ∀ e ∈ preOut, builtinEntry e.name = some e ∨ e = docEntry :=
-  tsxml_roundtrip_redeclared Demo.demoOps Demo.demo_user Demo.demo_noShadow Demo.demoD (Demo.demoD' ++ Demo.demoPre)
+  tsxml_roundtrip_redeclared Demo.demoOps Demo.demo_user Demo.demo_noShadow Demo.demo_stripped Demo.demoD (Demo.demoD' ++ Demo.demoPre)
     Demo.demoPre Demo.demo_descriptor Demo.demo_pre Demo.demo_pre_notop Demo.demo_pre_nodup
     ((List.perm_append_comm).trans (List.Perm.append_left _ Demo.demo_perm))
+
+example : ∃ ts', load Gen.consts (docEntry :: Demo.demoD') = .ok ts' ∧
+    SameXml (Demo.demoOps.foldl (applyOp Gen.consts) Gen.builtinTS) ts' ∧
+    toDescriptor Gen.consts ts' = .ok (docEntry :: Demo.demoD.map trimT) :=
+  tsxml_roundtrip_docann Demo.demoOps Demo.demo_user Demo.demo_noShadow Demo.demo_stripped Demo.demoD
+    (docEntry :: Demo.demoD') Demo.demo_descriptor (List.Perm.cons _ Demo.demo_perm)
 
 end Cassis.TsXml
 
